@@ -222,9 +222,40 @@ def main():
         else:
             lines.append('NOTE: known finding %s no longer reproduces on its recorded example' % kf['id'])
     broken = list(crashes)
+    build_note = None
     if not build.ok:
-        broken.append({'kind': 'build', 'stage': build.stage, 'file': build.failed_file,
-                       'translation_error': build.translation_error, 'log': build.log[-600:]})
+        # Which build failures leave THIS property unfounded:
+        #  - Tables.v could not be regenerated, or the model / extraction /
+        #    driver did not build: model and correspondence are stale -> all;
+        #  - the tokenizer-rule translator failed closed: only the theorems
+        #    about the generated rules (Props/C19gen.v) lose their tie -> C19;
+        #  - a Proofs/Props file failed: the property is affected exactly when
+        #    one of its own Props files no longer compiles.  That is decided
+        #    by check_props above, which re-runs coqc on each of them (the .vo
+        #    of every failed file has been removed, and Coq refuses a .vo
+        #    whose dependencies changed, so a stale proof cannot be loaded).
+        stages = list(getattr(build, 'stages', None) or [build.stage])
+        ffiles = list(getattr(build, 'failed_files', None) or ([build.failed_file] if build.failed_file else []))
+        affects = False
+        for st in stages:
+            if st in ('translate-tables', 'extraction', 'driver-build') or st is None:
+                affects = True
+            elif st == 'translate-tokrules':
+                affects = affects or prop == 'C19'
+            elif st == 'coq-build':
+                if not ffiles or any(f.startswith('theories/Model/') and not f.endswith('TokGen.v')
+                                     or f.startswith('theories/Extract/') for f in ffiles):
+                    affects = True
+            else:
+                affects = True
+        if affects:
+            broken.append({'kind': 'build', 'stage': build.stage, 'stages': stages, 'file': build.failed_file,
+                           'files': ffiles,
+                           'translation_error': build.translation_error, 'log': build.log[-600:]})
+        else:
+            build_note = ('build failure outside this property (stages %s, files %s): every Props file of %s '
+                          'was re-checked by coqc against the current tables and compiles'
+                          % (stages, ffiles, prop))
     if not proofs['ok']:
         broken.append({'kind': 'proof-obligation', 'file': proofs['file'],
                        'theorem': proofs.get('failing'), 'error': proofs['error']})
@@ -307,6 +338,7 @@ def main():
             'correspondence': [r.summary() for r in corr_results],
             'oracle': oracle.summary(),
             'build': build.to_json(),
+            'build_note': build_note,
             'known_findings_seen': {k: len(v) for k, v in known_hits.items()},
             'broken_obligations': broken,
         },
